@@ -8,6 +8,7 @@ export CARGO_NET_OFFLINE=true CARGO_TARGET_DIR=$WT/target
 CRATE=$(grep -o "\-p [a-z0-9-]*" $OUT/seeded_demo.rs | head -1 | cut -d' ' -f2); CRATE=${CRATE:-deb822-lossless}
 case $CRATE in deb822-lossless) TDIR=$WT/tests;; *) TDIR=$WT/$CRATE/tests;; esac
 mkdir -p $TDIR
+if [ -z "${SKIP_CONFIRM:-}" ]; then
 cd $WT && git checkout -q -- . && rm -f $TDIR/seeded_demo.rs
 echo "== [1] demo on the unchanged tree (must pass)"
 cp $OUT/seeded_demo.rs $TDIR/seeded_demo.rs
@@ -23,6 +24,10 @@ echo "== [3] demo with the patch (must fail)"
 cargo test --offline --test seeded_demo -p $CRATE >$OUT/confirm_patched.log 2>&1; R_PATCHED=$?
 echo "   exit $R_PATCHED"
 if [ $R_CLEAN -ne 0 ] || [ $R_SUITE -ne 0 ] || [ $R_PATCHED -eq 0 ]; then echo "NOT CONFIRMED"; exit 3; fi
+echo CONFIRMED > $OUT/confirmed.flag
+fi
+[ -f $OUT/confirmed.flag ] || { echo "not confirmed earlier"; exit 3; }
+[ -n "${SKIP_EVAL:-}" ] && exit 0
 echo "== [4] checks against the patched /repo"
 unset CARGO_TARGET_DIR
 cd /repo && git diff --quiet || { echo "/repo is dirty"; exit 2; }
